@@ -34,11 +34,20 @@ func (a *ad) Reset(s json.RawMessage) error {
 	switch len(st.Kinds) {
 	case 3:
 		a.his = []int{0, 1, 65535}
-	default:
+	case 2:
 		a.his = []int{0, 65535}
+	default: // the random driver: as many bucket keys as the trace specification of this tier has
+		a.his = genHis()
 	}
 	a.los = []int{0, 1, 65535}
 	return nil
+}
+
+func genHis() []int {
+	if core.EnvInt("VERIF_NHI", 2) == 3 {
+		return []int{0, 1, 65535}
+	}
+	return []int{0, 65535}
 }
 
 func v32(h, l int) uint32 { return uint32(h)<<16 | uint32(l) }
@@ -170,18 +179,18 @@ type gen struct {
 
 func (g *gen) Init(rng *rand.Rand) json.RawMessage { *g = gen{}; return json.RawMessage(`{}`) }
 func (g *gen) Next(rng *rand.Rand, step int) core.Op {
-	his := []int{0, 65535}
+	his := genHis()
 	switch x := rng.Intn(20); {
 	case x < 2:
-		return core.MkOp("Prefill", his[rng.Intn(2)])
+		return core.MkOp("Prefill", his[rng.Intn(len(his))])
 	case x < 3:
-		return core.MkOp("Unfill", his[rng.Intn(2)])
+		return core.MkOp("Unfill", his[rng.Intn(len(his))])
 	case x < 11:
-		return core.MkOp("Add", his[rng.Intn(2)], []int{0, 1, 65535}[rng.Intn(3)])
+		return core.MkOp("Add", his[rng.Intn(len(his))], []int{0, 1, 65535}[rng.Intn(3)])
 	case x < 17:
-		return core.MkOp("Remove", his[rng.Intn(2)], []int{0, 1, 65535}[rng.Intn(3)])
+		return core.MkOp("Remove", his[rng.Intn(len(his))], []int{0, 1, 65535}[rng.Intn(3)])
 	default:
-		return core.MkOp("Contains", his[rng.Intn(2)], []int{0, 1, 65535}[rng.Intn(3)])
+		return core.MkOp("Contains", his[rng.Intn(len(his))], []int{0, 1, 65535}[rng.Intn(3)])
 	}
 }
 
